@@ -65,8 +65,9 @@ MANIFEST = dict(
          'reader\'s size for every face count; each detail-prop class is written by its own branch; all 28 index tables of the writers have a '
          'key that determines the record; all 8 loops over local index tables reach every entry; the rebuild order is topological for the 28 '
          'append edges. The premises are kernel-checked for '
-         'today\'s source on every run (295 obligations). Models are compared byte-exactly with CPython struct, runlength_encode/decode, '
-         'binformat.find_or_* (with key functions), binformat.DeferredWrites, _lmp_write/read_textures, write_ent_data/_lmp_read_ents, the '
+         'today\'s source on every run (296 obligations). Models are compared byte-exactly with CPython struct, runlength_encode/decode, '
+         'binformat.find_or_* (with key functions), binformat.DeferredWrites, _lmp_write/read_textures, write_ent_data/_lmp_read_ents (output '
+         'delays / times given as Python ints or bools must be written as decimal numerals with that value, evaluated in Coq), the '
          'PHYSCOLLIDE lump of _lmp_write/read_bmodels; generated lump contents (incl. '
          'near-duplicate objects, and objects reachable ONLY through references of other objects - grafted sub-trees of nodes, leafs, faces, '
          'original faces, brushes, sides, planes, texinfo, texdata at depth >= 2) are assigned to all 20 views '
